@@ -274,6 +274,11 @@ def run_check(prop, tier, replay=None, label=None):
             if d2:
                 vlib.log("DRIFT: %d replayed registry schedule(s) behave differently from SyncMap.tla although no property failed" % d2)
                 drift += d2
+        if prop == "C06" and replay is None:
+            # completeness rests on the registry enumerating every registered definition, also when user-written scanners
+            # register and enumerate concurrently in the scanning phase: free-running registry histories (TraceRegHist.tla)
+            import check_conc
+            check_conc.regstress_phase(run, tier, workdir, binary)
         if prop == "C07" and replay is None:
             drift += registry_phase(run, tier, workdir, binary)
         if th:
